@@ -536,6 +536,8 @@ def attr_order(attrs):
 
 
 GETTERS_SKIP = {"pid"}
+DOUBLE_METHODS = ("exe", "cwd", "threads", "open_files", "memory_full_info", "net_connections", "children",
+                  "parent", "name", "cmdline", "memory_maps", "environ", "rlimit", "ppid", "is_running")
 EXTRA = ["is_running", "children", "parent", "rlimit"]
 ASDICT_SETS = [
     ["pid", "name", "status", "ppid", "cmdline"],
@@ -567,6 +569,25 @@ def single_plans(trace):
     return out
 
 
+def double_plans(plan, trace):
+    """second fault after the first one, on the trace of the run with the first fault:
+    (deny i, gone j>i) [the property's two-fault sequences], (deny i, zombie j>i),
+    (zombie i, gone j>i), (zombie i, deny j>i) [admissible plans the theorems also cover]"""
+    out = []
+    if "deny" in plan:
+        i = plan["deny"][0][0]
+        for j in range(i + 1, len(trace)):
+            out.append({"deny": plan["deny"], "switch": [[j, "gone"]]})
+            out.append({"deny": plan["deny"], "switch": [[j, "zombie"]]})
+    elif plan["switch"][0][1] == "zombie":
+        i = plan["switch"][0][0]
+        for j in range(i + 1, len(trace)):
+            out.append({"switch": [[i, "zombie"], [j, "gone"]]})
+            if scoped(trace[j]):
+                out.append({"switch": [[i, "zombie"]], "deny": [[j, "EACCES"]]})
+    return out
+
+
 def scoped(acc):
     kind, _, rest = acc.partition(" ")
     if kind == "native":
@@ -580,7 +601,8 @@ def plan_family(plan):
     if not sw and not d:
         return "none"
     if d and sw:
-        return "deny+" + "+".join(sw)
+        first_deny = plan["deny"][0][0] < plan["switch"][0][0]
+        return ("deny+" + "+".join(sw)) if first_deny else ("+".join(sw) + "+deny")
     if d:
         return "deny"
     return "+".join(sw)
@@ -679,20 +701,10 @@ def explore_world(ctx, res, bw, calls, doubles, batch, budget=None):
             batch.add(bw, call, plan, out, trace, unk, later)
             n += 1
             if doubles:
-                if "deny" in plan:
-                    i = plan["deny"][0][0]
-                    for j in range(i + 1, len(trace)):
-                        p2 = {"deny": plan["deny"], "switch": [[j, "gone"]]}
-                        o2, t2, u2, l2 = bw.run(call, p2)
-                        batch.add(bw, call, p2, o2, t2, u2)
-                        n += 1
-                elif plan["switch"][0][1] == "zombie":
-                    i = plan["switch"][0][0]
-                    for j in range(i + 1, len(trace)):
-                        p2 = {"switch": [[i, "zombie"], [j, "gone"]]}
-                        o2, t2, u2, l2 = bw.run(call, p2)
-                        batch.add(bw, call, p2, o2, t2, u2)
-                        n += 1
+                for p2 in double_plans(plan, trace):
+                    o2, t2, u2, _ = bw.run(call, p2)
+                    batch.add(bw, call, p2, o2, t2, u2)
+                    n += 1
         if len(batch.items) > 3000:
             batch.flush()
         if budget is not None and n > budget:
@@ -705,7 +717,7 @@ def correspond(ctx, res):
     res.rule = ("cases = (world, public method, fault plan); per world and method the fault-free run gives the "
                 "implementation's access trace, then EVERY position k gets vanish-at-k, zombie-from-k and (on "
                 "per-process accesses) EACCES-at-k / EPERM-at-k; thorough adds every (deny i, vanish j>i) and "
-                "(zombie i, gone j>i) pair; non-trivial = a plan with at least one fault; distinct = distinct "
+                "(deny i, zombie j>i), (zombie i, gone j>i) and (zombie i, deny j>i) pair; non-trivial = a plan with at least one fault; distinct = distinct "
                 "(world, call, plan)")
     bad = c03_faultfs.probe_live_zombie()
     res.extra["live_zombie_table_mismatches"] = bad
@@ -714,7 +726,7 @@ def correspond(ctx, res):
         res.disagree("model", {"live_kernel": True}, bad, None, None, note="behaviour table does not match the running kernel")
     worlds = fixed_worlds()
     thorough = ctx.tier == "thorough" or ctx.budget_factor > 1
-    nrand = ctx.n(1, 10)
+    nrand = ctx.n(3, 12)
     for _ in range(nrand):
         worlds.append(random_world(ctx.rng))
     batch = Batch(ctx, res)
@@ -723,11 +735,11 @@ def correspond(ctx, res):
         bw = BuiltWorld(ps, spec)
         try:
             calls = calls_for(ps, ctx.tier, all_attrs=(wi in (1, 2) or thorough))
-            doubles = thorough or wi == 1
-            if not thorough and wi == 1:
-                # quick tier: double faults on one world, for the methods with handlers of their own
-                calls_d = [c for c in calls if c["method"] in ("exe", "cwd", "threads", "open_files", "memory_full_info",
-                                                             "net_connections", "children", "name", "cmdline", "memory_maps")]
+            doubles = thorough or wi == 0
+            if not thorough and wi in (1, 2):
+                # quick tier: all double faults on the smallest world for every call, and on two
+                # richer worlds for the methods with handlers / loops of their own
+                calls_d = [c for c in calls if c["method"] in DOUBLE_METHODS]
                 total += explore_world(ctx, res, bw, calls_d, True, batch)
                 doubles = False
                 calls = [c for c in calls if c not in calls_d]
@@ -736,7 +748,7 @@ def correspond(ctx, res):
             bw.close()
         batch.flush()
     res.exhaustive = ("every single fault position (vanish, zombie, EACCES, EPERM) on the implementation's access trace of "
-                      "every public method on %d worlds%s" % (len(worlds), "; every deny-then-vanish and zombie-then-gone pair" if thorough else "; double faults on one world for 10 methods"))
+                      "every public method on %d worlds%s" % (len(worlds), "; every deny-then-vanish/zombie, zombie-then-gone/deny pair" if thorough else "; every double fault on the smallest world, and for 15 methods on two richer worlds"))
     res.extra["driver_lines"] = batch.lines
     res.extra["worlds"] = len(worlds)
 
